@@ -608,6 +608,32 @@ var rules = []rule{
 		m["verificationMethod"] = []any{vms(m)[0], vm}
 		replaceRef(m, old.(string), self.String()+"#key-1")
 	}},
+	// the same two defects with a publicKeyJwk that itself declares the wanted fragment as its "kid" member:
+	// the key id still is not the thumbprint of the key
+	{name: "vm-kid-free-text-jwk-declares-kid", mut: func(m map[string]any, self, _ did.DID, _, _ *key) {
+		vm := cloneMap(vms(m)[1])
+		old := vm["id"]
+		vm["id"] = self.String() + "#key-1"
+		if j, ok := vm["publicKeyJwk"].(map[string]any); ok {
+			j = cloneMap(j)
+			j["kid"] = "key-1"
+			vm["publicKeyJwk"] = j
+		}
+		m["verificationMethod"] = []any{vms(m)[0], vm}
+		replaceRef(m, old.(string), self.String()+"#key-1")
+	}},
+	{name: "vm-kid-other-keys-thumbprint-jwk-declares-kid", mut: func(m map[string]any, self, _ did.DID, k, _ *key) {
+		vm := cloneMap(vms(m)[1])
+		old := vm["id"]
+		vm["id"] = self.String() + "#" + k.frag + "A"
+		if j, ok := vm["publicKeyJwk"].(map[string]any); ok {
+			j = cloneMap(j)
+			j["kid"] = k.frag + "A"
+			vm["publicKeyJwk"] = j
+		}
+		m["verificationMethod"] = []any{vms(m)[0], vm}
+		replaceRef(m, old.(string), vm["id"].(string))
+	}},
 	{name: "service-id-without-fragment", mut: func(m map[string]any, self, _ did.DID, _, _ *key) {
 		sv := cloneMap(svcs(m)[0])
 		sv["id"] = self.String()
